@@ -157,6 +157,15 @@ func (m *C04Monitor) AfterStep(s *Sim, a *Action) {
 					(proxy != "" && cn.ProxyAddr != proxy) || (admin != "" && cn.AdminAddr != admin) {
 					s.Fail("address-mismatch", "%s: table has proxy=%q admin=%q, view has proxy=%q admin=%q, owner has %q %q", where, cn.ProxyAddr, cn.AdminAddr, proxy, admin, truth.ProxyAddr, truth.AdminAddr)
 				}
+				wantStatus := cluster.NodeStatusActive
+				if st.Left {
+					wantStatus = cluster.NodeStatusLeft
+				} else if st.Unreachable {
+					wantStatus = cluster.NodeStatusUnreachable
+				}
+				if cn.Status != wantStatus {
+					s.Fail("status-mismatch", "%s: the routing table holds the node as %q but its membership flags say %q (left=%v unreachable=%v)", where, cn.Status, wantStatus, st.Left, st.Unreachable)
+				}
 				if !sameEps(cn.Endpoints, eps) {
 					s.Fail("table-differs-from-view", "%s: routing table endpoints %s but the gossip view advertises %s\n  view: %s", where, epString(cn.Endpoints), epString(eps), stateString(st))
 				}
